@@ -115,6 +115,7 @@ type writeConn struct {
 	curEnc []byte
 	note   string
 	calls  int
+	cancel func() // ends the context of the Send in progress
 }
 
 func (c *writeConn) push(k, from, to int) {
@@ -155,6 +156,11 @@ func (c *writeConn) Write(b []byte) (int, error) {
 	c.push(c.curEnv, off, off+n)
 	switch st.R {
 	case "short":
+		return n, timeoutError{}
+	case "ctx": // the write times out and the context of the Send has ended meanwhile
+		if c.cancel != nil {
+			c.cancel()
+		}
 		return n, timeoutError{}
 	case "hard":
 		return n, errors.New("faultconn: connection reset")
@@ -326,8 +332,6 @@ func Replay(c Case) (res Result) {
 			res.Match = false
 		}
 	}()
-	ctx, cancel := context.WithTimeout(context.Background(), 20*time.Second)
-	defer cancel()
 	wc := &writeConn{plan: append([]Step(nil), c.Plan.W...)}
 	snd := lime.VerifNewTCPTransport(wc, &lime.TCPConfig{}, false)
 	for k := 1; k <= len(c.Cfg.Lens); k++ {
@@ -337,7 +341,13 @@ func Replay(c Case) (res Result) {
 			return res
 		}
 		wc.curEnv, wc.curEnc = k, enc
-		err = sendEnv(ctx, snd, n)
+		sctx := newManualCtx()
+		endWith := context.DeadlineExceeded
+		if (c.N+k)%2 == 1 {
+			endWith = context.Canceled
+		}
+		wc.cancel = func() { sctx.end(endWith) }
+		err = sendEnv(sctx, snd, n)
 		if err == nil {
 			res.Actual = append(res.Actual, Event{K: "send", Env: k, Res: "ok", Segs: [][3]int{}})
 		} else {
